@@ -181,7 +181,7 @@ var (
 	qsCond  = []*T{nil, {K: "equals", S: "host", R: "a"}, {K: "binary", I: int(stmt.AND), C: []*T{{K: "not", C: []*T{{K: "in", S: "ip", V: []string{"a", "b"}}}}, {K: "paren", C: []*T{{K: "binary", I: int(stmt.OR), C: []*T{{K: "like", S: "k", R: "a%"}, {K: "not", C: []*T{{K: "regex", S: "k", R: "b.*"}}}}}}}}}}
 	qsHav   = []*T{nil, {K: "binary", I: int(stmt.GREATER), C: []*T{{K: "binary", I: int(stmt.MUL), C: []*T{fF, {K: "number", N: 2}}}, {K: "number", N: 3.5}}}}
 	qsOrder = [][]*T{nil, {{K: "order", B: true, C: []*T{fF}}}, {{K: "order", C: []*T{fG}}, {K: "order", B: true, C: []*T{{K: "call", I: int(function.Max), C: []*T{fF}}}}}}
-	qsTR    = [][2]int64{{0, 0}, {1554854400000, 1554890400000}, {-5, 7}}
+	qsTR    = [][2]int64{{0, 0}, {1554854400000, 1554890400000}, {1554854400000, 1554854400000}, {0, 1554890400000}, {1554854400000, 0}, {-5, 7}} // incl. Start == End (a one-slot range is legal: bounds are inclusive) and half-set ranges
 	qsIvl   = []int64{0, 10_000, 60_000, 31 * 24 * 3600_000, 365 * 24 * 3600_000}
 	qsSIvl  = []int64{0, 10_000, 300_000}
 	qsRatio = []int{0, 1, 6}
@@ -225,7 +225,7 @@ func (s *QS) build() *stmt.Query {
 // forEachQuery: the full product of the per-field alphabets of stmt.Query (every field zero / non-zero,
 // including the fields only the planner sets).
 func forEachQuery(thorough bool, bounds map[string]interface{}, fn func(*QS) bool) {
-	ivl, trs, limits, gbs := qsIvl[:3], qsTR[:2], qsLimit[:2], []int{0, 1, 2}
+	ivl, trs, limits, gbs := qsIvl[:3], qsTR[:3], qsLimit[:2], []int{0, 1, 2}
 	if thorough {
 		ivl, trs, limits, gbs = qsIvl, qsTR, qsLimit, []int{0, 1, 2, 3}
 	}
